@@ -730,8 +730,9 @@ Definition volume_body (u : unit) (name : str) (svc : unit) (tbl : table) : bres
             else
               do usr <- lk u sec (L "User");
               do grp <- lk u sec (L "Group");
-              let opts := (if has_key u sec (L "User") then [L "uid=" ++ N_to_str (match usr with Some s => parse_u32_or0 s | None => 0 end)] else [])
-                          ++ (if has_key u sec (L "Group") then [L "gid=" ++ N_to_str (match grp with Some s => parse_u32_or0 s | None => 0 end)] else []) in
+              (* repaired: an empty last assignment unsets the key (the pinned code tested has_key and produced uid=0 / gid=0) *)
+              let opts := (match usr with Some s => [L "uid=" ++ N_to_str (parse_u32_or0 s)] | None => [] end)
+                          ++ (match grp with Some s => [L "gid=" ++ N_to_str (parse_u32_or0 s)] | None => [] end) in
               let args := match lookup_bool u sec (L "Copy") with
                           | Some true => args ++ [L "--opt"; L "copy"]
                           | Some false => args ++ [L "--opt"; L "nocopy"]
